@@ -27,7 +27,7 @@ ASSUMPTIONS = ['asyncio subsystem: a non-IDLE command runs to completion in '
                'one loop iteration, so interleavings are at command, literal '
                'continuation, IDLE and timer granularity',
                'ground truth is a fresh EXAMINE probe session']
-BUDGET = {'quick': (150, 16), 'thorough': (2500, 16)}
+BUDGET = {'quick': (300, 16), 'thorough': (2500, 16)}
 
 OWN_CAUSE = {'expunge', 'uidexpunge', 'move', 'append', 'append_end',
              'append_begin'}
